@@ -127,6 +127,14 @@ Definition p_file (ts : list string) : option ((list string * option yaml) * lis
       | Some k =>
           match p_strs k ts1 with
           | Some (path, String "X" "" :: ts2) => Some ((path, None), ts2)
+          | Some (path, String "R" _ :: ts2) => Some ((path, Some (YTagged "<raw>" YNull)), ts2)   (* unparsed text *)
+          | Some (path, String "B" _ :: ts2) => Some ((path, Some (YTagged "<raw>" YNull)), ts2)   (* raw bytes *)
+          | Some (path, String "Y" _ :: ts2) => Some ((path, None), ts2)                           (* symlink *)
+          | Some (path, String "V" "" :: ts2) =>                                                   (* seen through a symlink *)
+              match p_yaml (S (List.length ts2)) ts2 with
+              | Some (y, ts3) => Some ((path, Some y), ts3)
+              | None => None
+              end
           | Some (path, ts2) =>
               match p_yaml (S (List.length ts2)) ts2 with
               | Some (y, ts3) => Some ((path, Some y), ts3)
@@ -171,15 +179,19 @@ Definition dir_doc : yaml := YTagged "<directory>" YNull.
 Definition is_dir_doc (y : yaml) : bool :=
   match y with YTagged t YNull => String.eqb t "<directory>" | _ => false end.
 
+(** Only files are entities: directories (doc [None]) are walked but never registered. *)
+Definition file_paths (files : list (list string * option yaml)) : list (list string) :=
+  map fst (filter (fun '(_, d) => match d with Some _ => true | None => false end) files).
+
 Definition class_table (files : list (list string * option yaml)) : res (list cls_entry) :=
-  es <- discover KClass true (map fst files) ;;
+  es <- discover KClass true (file_paths files) ;;
   Ok (map (fun e => {| ce_name := en_name e;
                        ce_doc := match doc_of (en_path e) files with
                                  | Some (Some d) => d | _ => dir_doc end;
                        ce_loc := en_loc e |}) es).
 
 Definition node_table (compose : bool) (files : list (list string * option yaml)) : res (list node_entry) :=
-  es <- discover KNode compose (map fst files) ;;
+  es <- discover KNode compose (file_paths files) ;;
   Ok (map (fun e => {| ne_name := en_name e; ne_path := en_path e;
                        ne_doc := match doc_of (en_path e) files with
                                  | Some (Some d) => d | _ => dir_doc end |}) es).
@@ -277,8 +289,8 @@ Definition run_inv (ts : list string) : string :=
                                     canon_res (fun '(ns, cs) =>
                                                  ("N" ++ canon_index (sort_index (map (fun e => (en_name e, [join "/" (en_path e)])) ns)) ++
                                                   " C" ++ canon_index (sort_index (map (fun e => (en_name e, [join "/" (en_path e)])) cs)))%string)
-                                              (ns <- discover KNode co (map fst nfiles) ;;
-                                               cs <- discover KClass true (map fst cfiles) ;; Ok (ns, cs))
+                                              (ns <- discover KNode co (file_paths nfiles) ;;
+                                               cs <- discover KClass true (file_paths cfiles) ;; Ok (ns, cs))
                                   else "badcase"
                               | _ => "badcase"
                               end
